@@ -950,4 +950,39 @@ def _k1(f):
     return bool(m) and m.group(1).startswith('_')
 
 
-MATCHERS = {'attribute_name_is_a_method_or_private': _k1}
+def _k2(f):
+    """K2, exactly: `d + other` (Dict.__add__ = tree_update) where `other` is a HANDLE that holds, at some depth, a branch whose class is
+    a dict subclass other than dict / Dict / dictattr - e.g. the branches `MyDict + {...}` itself creates (a new branch gets the class of
+    the root) - which tree_update reads as a LEAF: the branch of d under that key is replaced, not merged.  Accepted only when: the failing
+    line is an h.addh, the receiver is a Dict, the operand really holds such a nested branch, and the implementation's answer on the same
+    operand with all nested branches made plain dicts IS the model's answer (so nothing else differs)."""
+    lines = f.case.get('lines', [])
+    i = getattr(f, 'line_index', None)
+    if i is None or i >= len(lines) or not lines[i].startswith('(c16 h.addh '):
+        return False
+    from pyg_base import Dict, dictattr
+    st = new_state()
+    for l in lines[:i]:
+        try:
+            run_line(st, proto.parse(l))
+        except Exception:
+            pass                              # a line that raises (KeyError, ...) allocates nothing, as in the engine
+    try:
+        sx = proto.parse(lines[i])
+        h, g = int(sx[2]), int(sx[3])
+        d, o, n = st['dheap'][h], st['dheap'][g], st['dsnap'][h][0]
+    except Exception:
+        return False
+    strict = lambda v: isinstance(v, dict) and type(v) not in (dict, Dict, dictattr)          # noqa: E731
+    nested = lambda v: isinstance(v, dict) and any(strict(x) or nested(x) for x in v.values())   # noqa: E731
+    plain = lambda v: {k: plain(x) for k, x in v.items()} if isinstance(v, dict) else v        # noqa: E731
+    if not isinstance(d, Dict) or not nested(o) or not isinstance(f.model, str):
+        return False
+    try:
+        res = d + plain(o)
+    except Exception:
+        return False
+    return _canon_reply('ok ' + encd(n, res)) == _canon_reply(f.model)
+
+
+MATCHERS = {'attribute_name_is_a_method_or_private': _k1, 'nested_subclass_branch_is_a_leaf': _k2}
